@@ -22,6 +22,8 @@ const (
 	rKeyExpOver3s    = "C06:rt:expiry-early-ms-over-3s"
 	rKeyTimeoutOver3 = "C05:rt:timeout-early-ms-over-3s"
 	rKeyUnlimitedMs  = "C06:rt:unlimited-expired-ms-flag"
+	rKeySlotT        = "C05:rt:ms-wheel-slot-collision"
+	rKeySlotE        = "C06:rt:ms-wheel-slot-collision"
 )
 
 // rPar: cases executed concurrently inside one process (each on its own instance).
@@ -145,6 +147,16 @@ func rGenLongValue(t *rapid.T, allowMs bool) (v, flag int) {
 	}
 }
 
+// rAvoidSlotCollision: while the finding is listed as known, millisecond periods that end on the millisecond wheel in its
+// last 400 ms (2601..2999) are not generated (the value is lowered to 2600): a slot goroutine that is 3000 - v ms late makes
+// them fire at once, and 400 ms is twice the delay at which this engine stops judging early answers.
+func rAvoidSlotCollision(v, flag int, key string) int {
+	if flag&rTFms != 0 && v < MILLISECOND_QUEUE_LENGTH && v > rSlotCollisionFrom && vIsKnown(key) {
+		return rSlotCollisionFrom
+	}
+	return v
+}
+
 // rGenLongBlock: requests that really have to wait (behind a holder with unlimited expiry, on a key of their own) and
 // holds that are watched for the rest of the case (on another key of their own), with periods from rGenLongValue. They
 // come first in the script so that their watch window (rWatchMs) lies inside the case.
@@ -160,6 +172,7 @@ func rGenLongBlock(t *rapid.T, c *rCase, prof string) {
 		for i := 0; i < n; i++ {
 			s := rStep{K: "lock", C: rapid.IntRange(0, c.NClients-1).Draw(t, "client"), Key: 2, Id: 33 + i, E: 1}
 			s.T, s.TF = rGenLongValue(t, !vIsKnown(rKeyTimeoutOver3))
+			s.T = rAvoidSlotCollision(s.T, s.TF, rKeySlotT)
 			c.Script = append(c.Script, s)
 		}
 	}
@@ -168,6 +181,7 @@ func rGenLongBlock(t *rapid.T, c *rCase, prof string) {
 		for i := 0; i < n; i++ {
 			s := rStep{K: "lock", C: rapid.IntRange(0, c.NClients-1).Draw(t, "client"), Key: 3, Id: 48 + i, Cnt: 2}
 			s.E, s.EF = rGenLongValue(t, !vIsKnown(rKeyExpOver3s))
+			s.E = rAvoidSlotCollision(s.E, s.EF, rKeySlotE)
 			c.Script = append(c.Script, s)
 		}
 	}
@@ -196,6 +210,12 @@ func rGenCase(t *rapid.T, prof string, st *vStat) *rCase {
 	}
 	if vIsKnown(rKeyExpOver3s) {
 		st.Exclude("millisecond-flag Expried >= 3000 not generated (known finding " + rKeyExpOver3s + ")")
+	}
+	if vIsKnown(rKeySlotT) {
+		st.Exclude("millisecond-flag Timeout 2601..2999 not generated (known finding " + rKeySlotT + ")")
+	}
+	if vIsKnown(rKeySlotE) {
+		st.Exclude("millisecond-flag Expried 2601..2999 not generated (known finding " + rKeySlotE + ")")
 	}
 	if vIsKnown(rKeyUnlimitedMs) {
 		st.Exclude("unlimited-expiry flag is not combined with the millisecond flag (known finding " + rKeyUnlimitedMs + ")")
@@ -481,7 +501,19 @@ func rReplayTest(t *testing.T, prop string) {
 		}
 		msg := ""
 		var last rOutcome
-		for k := 0; k < 4 && msg == ""; k++ {
+		// "tries" in the replay file: schedule-dependent findings get more than the default 4 attempts.
+		// VERIF_R_RATE=n (development aid): run n times whatever happens and print the hit rate.
+		tries, rate, hits := 4, vEnvInt("VERIF_R_RATE", 0), 0
+		var meta struct {
+			Tries int `json:"tries"`
+		}
+		if b, err := os.ReadFile(f); err == nil && json.Unmarshal(b, &meta) == nil && meta.Tries > 0 {
+			tries = meta.Tries
+		}
+		if rate > 0 {
+			tries = rate
+		}
+		for k := 0; k < tries && (msg == "" || rate > 0); k++ {
 			last = rRunOne(&c)
 			if last.run.Panic != "" {
 				msg = "panic: " + last.run.Panic
@@ -489,9 +521,13 @@ func rReplayTest(t *testing.T, prop string) {
 			for _, x := range last.v.viols {
 				if x.Key == key || (key == "" && strings.HasPrefix(x.Key, prop+":")) {
 					msg = x.Msg
+					hits++
 					break
 				}
 			}
+		}
+		if rate > 0 {
+			fmt.Printf("VERIF-RATE key=%s hits=%d/%d file=%s\n", key, hits, tries, f)
 		}
 		fmt.Printf("VERIF-KF key=%s reproduced=%v file=%s %s\n", key, msg != "", f, strings.ReplaceAll(msg, "\n", " | "))
 		if testing.Verbose() {
